@@ -632,6 +632,12 @@ def catalogue():
     add("score.counterpoint", ["score"], lambda a, r: a[0].get_counterpoint(fixed_parts=a[0].instruments[:1]))
     add("VoiceLeading", ["score"], lambda a, r: VoiceLeading(seed=3, max_iter=5, max_iter_rules=5, fixed_voices=a[0].instruments[:1],
                                                             change_octave_fixed=r.random() < 0.5)(a[0]))
+    # voice leading is named in the statement: its call form (octave normalisation, then the in-place editor on what that hands back) is
+    # drawn more often, with other seeds, without fixed voices and with the octave step skipped
+    add("VoiceLeading-free", ["score"], lambda a, r: VoiceLeading(seed=r.randrange(100), max_iter=8, max_iter_rules=5)(a[0]))
+    add("VoiceLeading-free2", ["score"], lambda a, r: VoiceLeading(seed=r.randrange(100), max_iter=20, max_iter_rules=2, method=r.choice(["voices_and_rules", "voices"]))(a[0]))
+    add("VoiceLeading-skip", ["score"], lambda a, r: VoiceLeading(seed=1)(a[0], skip=True))
+    add("VoiceLeading.optimize", ["score"], lambda a, r: VoiceLeading(seed=r.randrange(100), max_iter=8, max_iter_rules=5).optimize(a[0]))
     add("score.split_too_long_chords", ["score"], lambda a, r: a[0].split_too_long_chords(Fr(1)))
     add("score.repeat_until_duration", ["score"], lambda a, r: a[0].repeat_until_duration(a[0].duration * 2))
     add("score.replace_instruments", ["score"], lambda a, r: a[0].replace_instruments(**{a[0].instruments[0]: "harp__3"}))
